@@ -543,7 +543,7 @@ class Item:
         return self
 
     SORTS = ("sort_by_key", "sort_by", "sort_unstable_by_key", "sort_unstable_by", "sort_by_cached_key", "sort", "sort_unstable", "reverse",
-             "dedup", "dedup_by_key", "retain")
+             "dedup_by_key", "dedup_by", "dedup", "retain_mut", "retain")
 
     def shim_reorderings(self):
         """R5, generic: `recv.sort_by_key(..)`, `.sort()`, `.reverse()`, `.dedup()`, `.retain(..)` ... on a vector become
